@@ -278,7 +278,7 @@ QUICK_CELLS = [
     ("disabled", "none", "same", False), ("s1", "none", "same", True), ("s2", "default", "same", False),
     ("s3", "none", "recreate", False), ("s8", "default", "fresh_mgr", False), ("s32", "none", "readonly", False),
     ("avail", "default", "same", True), ("disabled", "ms1", "recreate", False), ("s2", "short", "same", False),
-    ("disabled", "tiny", "readonly", False), ("avail", "short", "fresh_mgr", False), ("s2", "tiny", "recreate", False),
+    ("disabled", "tiny", "readonly", False), ("avail", "short", "fresh_mgr", False), ("s2", "tiny", "recreate", False), ("disabled", "tight", "same", False),
 ]
 
 def merge_traces(a_files, b_files, outdir):
@@ -312,7 +312,7 @@ def c14():
     else:
         cells = [(p, c, r, (i % 7 == 0)) for i, (p, c, r) in enumerate(
             (p, c, r) for p in ["disabled", "s1", "s2", "s3", "s8", "s32", "avail"]
-            for c in ["none", "default", "ms1", "short", "tiny"] for r in ["same", "recreate", "fresh_mgr", "readonly"])]
+            for c in ["none", "default", "ms1", "short", "tiny", "tight"] for r in ["same", "recreate", "fresh_mgr", "readonly"])]
     bs = []
     for h, (labels, values, steps, deep) in enumerate(hist):
         ccells = cells if chk.tier == "quick" else rnd.sample(cells, 24)
